@@ -472,3 +472,58 @@ def run_store_config_sites(repo, task):
     if n < 20:
         rep['detail'] = f'only {n} config uses found in the store modules: the generator no longer matches the source layout'
     return rep
+
+
+def run_map_sharing_sites(repo, task):
+    """C01 / C02 / C09 site obligations read off the AST (G11): the label -> position map of one index object is handed to another index object
+    only when BOTH are static (a grow-only owner would later add labels to a map a static index keeps consulting).  Every assignment
+    `<target>._map = <source>._map` in the index modules must sit under a condition that tests `<source>.STATIC` and `self.STATIC` / `<target>.STATIC`."""
+    import ast
+    t0 = time.time()
+    items, failures = [], []
+
+    def ob(name, ok, note, fn, undecided=False):
+        v = 'proved' if ok else ('undecided' if undecided else 'refuted')
+        items.append(dict(name=name, fn=fn, kind='G11', verdict=v, backend='ast', ms=0.0, note=note))
+        if v == 'refuted':
+            failures.append(dict(key=f'G:{name}', what=f'{name}: {note}', nofail=True, replay=dict(site=name, note=note)))
+    core = os.path.join(repo, 'static_frame/core')
+    n = 0
+    for mod in ('index.py', 'index_datetime.py', 'index_hierarchy.py', 'index_level.py', 'index_auto.py'):
+        path = os.path.join(core, mod)
+        if not os.path.exists(path):
+            continue
+        tree = ast.parse(open(path).read())
+        parents = {}
+        for node in ast.walk(tree):
+            for ch in ast.iter_child_nodes(node):
+                parents[id(ch)] = node
+        k = 0
+        for node in ast.walk(tree):
+            if not (isinstance(node, ast.Assign) and len(node.targets) == 1 and isinstance(node.targets[0], ast.Attribute) and node.targets[0].attr == '_map'
+                    and isinstance(node.value, ast.Attribute) and node.value.attr == '_map'):
+                continue
+            tgt, src = ast.unparse(node.targets[0].value), ast.unparse(node.value.value)
+            if tgt == src:
+                continue
+            n += 1
+            # conditions of all enclosing ifs (on the true branch)
+            conds, cur = [], node
+            fn = None
+            while id(cur) in parents:
+                par = parents[id(cur)]
+                if isinstance(par, ast.If) and any(cur is b or any(cur is x for x in ast.walk(b)) for b in par.body):
+                    conds.append(ast.unparse(par.test))
+                if isinstance(par, (ast.FunctionDef, ast.AsyncFunctionDef)) and fn is None:
+                    fn = par.name
+                cur = par
+            text = ' and '.join(conds)
+            deep = fn in ('__deepcopy__', '__copy__', '__setstate__')      # a private copy of the map object, not a shared one
+            ok = deep or (f'{src}.STATIC' in text and (f'{tgt}.STATIC' in text))
+            ob(f'{mod}:{fn}:map-shared#{k}', ok, f'{tgt}._map = {src}._map under [{text}]', f'{mod}:{fn}')
+            k += 1
+    rep = dict(name=task['name'], status='ok' if n >= 1 else 'checker-fault', items=items, failures=failures, evaluations=0, distinct=0, rule='',
+               samples=[dict(obligation=i['name'], verdict=i['verdict']) for i in items[:3]], trusted=[], assumptions=[], wall_s=round(time.time() - t0, 2))
+    if n < 1:
+        rep['detail'] = 'no map hand-over site found: the generator no longer matches the source layout'
+    return rep
